@@ -239,6 +239,7 @@ class Interp:
 
     def e_Tuple(self, node, st):
         items = []
+        segs = []      # (x, *seq, y) with a sequence of symbolic length: the concatenation of the segments
         for e in node.elts:
             if isinstance(e, ast.Starred):
                 v = self.eval(e.value, st)
@@ -248,11 +249,26 @@ class Interp:
                 a = self.arr_of(v, st)
                 n = self.concrete_int(a.shape[0])
                 if n is None:
-                    raise Unsupported("star-unpacking of a sequence of unknown length")
+                    if items:
+                        segs.append(self._list_of(items, st))
+                        items = []
+                    segs.append(v)
+                    continue
                 items.extend(a.elem(i) for i in range(n))
             else:
                 items.append(self.eval(e, st))
+        if segs:
+            if items:
+                segs.append(self._list_of(items, st))
+            out = segs[0]
+            for s_ in segs[1:]:
+                out = lib.list_concat(self, st, out, s_)
+            return out
         return VTuple(items)
+
+    def _list_of(self, items, st):
+        et = lib.etype_of(items[0]) if items else "any"
+        return st.alloc(Arr((len(items),), lambda i, items=items: self._pick(items, i), kind="list", etype=et), "arr")
 
     def e_List(self, node, st):
         items = [self.eval(e, st) for e in node.elts]
